@@ -301,3 +301,99 @@ a.com {
 }
 "%string)).
 Proof. vm_compute. reflexivity. Qed.
+
+(* SNIPPET IMPORT AT DIRECTIVE LEVEL, AND THE RETURN FROM A NESTED IMPORT.  For every state with the
+   cursor in front of `import <snippet>` where a directive may stand, every snippet body made of
+   well-formed directive lines (all carrying one mark [m], as the tokens of one definition do) and
+   ANY token [nxt] behind the statement that does not carry the number of THIS import and is not `{`
+   — a token of the importing text, or, when the statement was itself spliced in by an earlier
+   import, the next token of the enclosing snippet, whose mark is a SMALLER number — whatever the
+   definition-site line numbers are (body defined above, below, or on the line of [nxt]):
+   the marked body followed by [nxt] satisfies the guard of the structure theorems, and the parser
+   takes the body as exactly its lines, one directive each, and goes on at [nxt] as the start of a
+   new line.  Together with C10_directives_fuel_linear this composes over snippets importing
+   snippets with directives before and after the inner import, and over consecutive imports. *)
+Theorem C10_import_snippet_lines : forall env maxi globs files done imp arg nxt rest pat ls rb0 m f st,
+  at_end st done (imp :: arg :: nxt :: rest) -> t_text imp = IMPORT ->
+  import_ready env globs files st imp arg (nxt :: rest) pat (flat_lines ls) ->
+  (maxi <? p_imports st + 1)%N = false ->
+  marked m (flat_lines ls) -> lines_ok ls rb0 = true ->
+  t_imp nxt <> (p_imports st + 1)%N -> beq (t_text nxt) LBRACE = false ->
+  (length (flat_lines ls) < f)%nat ->
+  let n := (p_imports st + 1)%N in
+  let ls' := map (tg_line (Some n)) ls in
+  lines_ok ls' nxt = true /\
+  directives env maxi globs files (S (length ls + f)) st =
+  directives env maxi globs files f
+    (st_with (st_imp st (done ++ flat_lines ls' ++ nxt :: rest) (Z.of_nat (length done) - 1))
+             (done ++ exp_lines env ls' ++ nxt :: rest) (Z.of_nat (length (done ++ exp_lines env ls')) - 1)
+             (push_lines env (p_btoks st) ls')).
+Proof. exact import_snippet_lines. Qed.
+Print Assumptions C10_import_snippet_lines.
+
+(* non-vacuity on the witness of seeded change C10-m5: the outer snippet is defined above the inner
+   one, so on return from `import inner` the next token (`root`, line 3, mark 1) has a SMALLER line
+   number and a SMALLER mark than the last token of the inner snippet (`gzip`, line 6, mark 2); the
+   state is the parser's own after the first import, and the split text parses like the inline text *)
+Example C10_import_snippet_lines_nonvacuous :
+  at_end ReturnExample.st ReturnExample.done (ReturnExample.imp :: ReturnExample.arg :: ReturnExample.nxt :: ReturnExample.rest) /\
+  import_ready [] [] [] ReturnExample.st ReturnExample.imp ReturnExample.arg (ReturnExample.nxt :: ReturnExample.rest)
+               (bs "inner"%string) (flat_lines ReturnExample.ls) /\
+  marked 0 (flat_lines ReturnExample.ls) /\ lines_ok ReturnExample.ls (ReturnExample.tk 7 "}" 0) = true /\
+  t_imp ReturnExample.nxt <> (p_imports ReturnExample.st + 1)%N /\
+  (t_imp ReturnExample.nxt < p_imports ReturnExample.st + 1)%N /\ (t_line ReturnExample.nxt < 6)%Z /\
+  p_tokens ReturnExample.st =
+    firstn 13 (lex ReturnExample.split) ++ map (set_imp 1) (firstn 4 (skipn 2 (lex ReturnExample.split))) ++ skipn 15 (lex ReturnExample.split) /\
+  texts_of (parse [] ReturnExample.split) = texts_of (parse [] ReturnExample.inline) /\
+  texts_of (parse [] ReturnExample.inline) =
+    Some [([bs "a.com"%string], [(bs "gzip"%string, [bs "gzip"%string]); (bs "root"%string, [bs "root"%string; bs "/srv"%string])])].
+Proof.
+  split; [split; reflexivity|]. split; [repeat split; try (vm_compute; congruence); left; reflexivity|].
+  split; [repeat constructor|]. repeat split; try (vm_compute; congruence).
+Qed.
+
+(* An expanded token ends where it was WRITTEN: after environment substitution — whatever the
+   values contain — the number of input line breaks the Dispenser attributes to the token is the
+   number of line breaks of the text as written (minus what earlier substitutions brought in), so a
+   quoted argument spanning several input lines that holds a reference still ends on the line where
+   its quotes close and the arguments behind it stay on its line. *)
+Theorem C10_env_expanded_token_ends_where_written : forall env t u,
+  tok_breaks (exp_tok env t) = (count_nl (t_text t) - t_envnl t)%Z /\
+  same_line (exp_tok env t) u =
+    ((t_file t =? t_file u) && (t_imp t =? t_imp u) && (t_line t + (count_nl (t_text t) - t_envnl t) =? t_line u)%Z).
+Proof. exact env_expanded_token_ends_where_written. Qed.
+Print Assumptions C10_env_expanded_token_ends_where_written.
+
+(* the witness of seeded change C10-m6: `200 text/plain` stay arguments of respond *)
+Example C10_env_reference_in_multi_line_argument :
+  texts_of (parse [(bs "NAME"%string, bs "Bob"%string)] (bs ":8080
+respond ""Hello {$NAME},
+welcome"" 200 text/plain
+log stdout
+"%string)) =
+    Some [([bs ":8080"%string], [(bs "respond"%string, [bs "respond"%string; bs "Hello Bob,
+welcome"%string; bs "200"%string; bs "text/plain"%string]);
+                                  (bs "log"%string, [bs "log"%string; bs "stdout"%string])])].
+Proof. vm_compute. reflexivity. Qed.
+
+(* The line structure of a PRINTED text is the one written, whatever the values contain: in the
+   tokens the lexer delivers for any printed token list, a token printed with a line break behind
+   it ends its line (the next token is on a new line for NextLine/isNewLine and not an argument for
+   NextArg) and a token printed with a space does not — for every text that can be written inside
+   quotes: line breaks, and line breaks directly behind a backslash (continuation lines) included. *)
+Theorem C10_printed_value_ends_its_line : forall ts1 t nl u ts2,
+  forallb (fun p => okq (fst p)) (ts1 ++ (t, nl) :: u :: ts2) = true ->
+  exists a b,
+    nth_error (lex (print (ts1 ++ (t, nl) :: u :: ts2))) (length ts1) = Some a /\
+    nth_error (lex (print (ts1 ++ (t, nl) :: u :: ts2))) (S (length ts1)) = Some b /\
+    t_text a = t /\ t_text b = fst u /\
+    next_on_new_line a b = nl /\ same_line a b = negb nl.
+Proof. exact printed_value_ends_its_line. Qed.
+Print Assumptions C10_printed_value_ends_its_line.
+
+Example C10_printed_value_ends_its_line_nonvacuous :
+  let v := [97; 32; 92; 10; 32; 98] in   (* a \<line break> b *)
+  let ts := [(bs "header"%string, false); (bs "/"%string, false); (bs "X-A"%string, false); (v, true); (bs "gzip"%string, true)] in
+  forallb (fun p => okq (fst p)) ts = true /\
+  map t_line (lex (print ts)) = [1; 1; 1; 1; 3]%Z.
+Proof. vm_compute. auto. Qed.
